@@ -60,6 +60,11 @@ func (s *Service) AttestationData(ctx context.Context,
 
 				return
 			}
+			if attestationDataResponse == nil || attestationDataResponse.Data == nil {
+				// A response without data is not a response we can use.
+				log.Warn().Dur("elapsed", time.Since(started)).Msg("Obtained empty attestation data response; ignoring")
+				return
+			}
 			attestationData := attestationDataResponse.Data
 			log.Trace().Dur("elapsed", time.Since(started)).Msg("Obtained attestation data")
 
